@@ -13,6 +13,7 @@ pub mod checks;
 pub mod cms;
 pub mod daemon;
 pub mod routes;
+pub mod jitter;
 
 fn main() {
     let args: Vec<String> = std::env::args().collect();
